@@ -21,6 +21,7 @@ RULE = (
     "shifts of its position in the file (block boundaries of any size up to 128 KiB fall on and inside lines). "
     "Non-trivial iff >= 3 ticks and (chord of >= 3 lanes, or gap 1, or a "
     "chord as last group, or an S/E line inside a tick group); distinct = distinct section text."
+    ' Also: a lane line repeated verbatim inside its tick group; sections parsed with a selection (all sections / target plus an absent pair).'
 )
 ASSUMPTIONS = [
     "one line per (tick, lane); N lines sorted by tick (Moonscraper); a lone open line is first in its tick "
